@@ -4,7 +4,11 @@
    namespace, and the fast paths keep text / CDATA / attribute values borrowed.  Whole documents on the fragment of
    Spec/Cst.v (parse_render_storage): every Text node and every attribute value is stored Borrowed with exactly the
    span where it is written, and every name (tag, attribute, PI target, PI value, comment text) is the slice of its
-   written occurrence (shapes c / attr_spans c, CstRangeDefs.v).
+   written occurrence (shapes c / attr_spans c, CstRangeDefs.v).  On the fragment of Spec/CstText.v
+   (parse_render_storage_t; tshapes / tattr_spans in CstRangeTDefs.v): a run that is ONE literal without CR is Borrowed
+   with exactly its span; a run that is ONE CDATA section without CR is Borrowed with the span of its content; every other
+   run is Owned with the decoded text; an attribute value that is empty or one literal without TAB / LF / CR is Borrowed
+   with the span between the quotes, every other is Owned with the normalised value -- undecoded content is never copied.
    Statements are pinned here (copied verbatim from the proof files by tools/pin_props.py);
    each is re-proved by `exact` and followed by Print Assumptions. *)
 From Coq Require Import Ascii String.
@@ -13,7 +17,8 @@ Import ListNotations.
 From RX Require Import Generated.
 From RX.Model Require Import Base CharClass Stream Tokenizer Doc Builder Parse Api.
 From RX.Spec Require Cst.
-From RX.Proofs Require Import BorrowLocal BorrowTokenizer BorrowParse TextMerge CstRangeDefs CstRangeMain.
+From RX.Spec Require CstText.
+From RX.Proofs Require Import BorrowLocal BorrowTokenizer BorrowParse TextMerge CstRangeDefs CstRangeMain CstRangeTDefs CstRangeTMain.
 Open Scope N_scope.
 
 (* ---- Proofs/BorrowLocal.v ---- *)
@@ -105,3 +110,24 @@ Theorem C18_parse_render_storage :
   map (fun s => (slice_of (as_qname s), Borrowed (SIn (slice_of (as_value s))))) (attr_spans c).
 Proof. exact parse_render_storage. Qed.
 Print Assumptions C18_parse_render_storage.
+
+(* ---- Proofs/CstRangeTMain.v ---- *)
+Module G5.
+Module T := CstText.
+Theorem C18_parse_render_storage_t :
+  forall (c : T.doc) (opt : options) d,
+  T.wf_doc c = true ->
+  N.of_nat (length (T.sem c)) < nodes_limit opt ->
+  N.of_nat (length (T.render c)) <= u32_max ->
+  parse (T.render c) opt = Ok d ->
+  (* every node holds exactly what [tshapes] says: the slices of its written occurrence; a Text node
+     is Borrowed with the span of its literal / of the content of its CDATA section, or Owned with
+     the decoded text *)
+  Forall2 stored_as_t (map nd_kind (tl (d_nodes d))) (tshapes c) /\
+  (* every attribute: the local name is the slice of the written name; the value is Borrowed with
+     the span between the quotes, or Owned with the normalised value *)
+  Forall2 attr_stored (d_attrs d) (tattr_spans c).
+Proof. exact parse_render_storage_t. Qed.
+Print Assumptions C18_parse_render_storage_t.
+
+End G5.
